@@ -236,6 +236,24 @@ def run(ck, m):
     rule_memo_safety(ck, m, "MEMO", "C02")          # first: a memoised helper also hides the code it wraps from the rules below
     br = m.get(BL, "BlockImage._render_image")
     ub = m.get(BL, "BlockImage._render_image.update_buffer")
+    # roles of the three cell glyphs (the names the rules are written with): the variables update_buffer multiplies by the run length, classified by what
+    # the renderer binds them to (a blank, LOWER_PIXEL, UPPER_PIXEL - each possibly followed by the cell separator)
+    from tiv.roles import rename_locals as _rl
+    groles = {}
+    for mul_ in [x for x in body_walk(ub) if isinstance(x, ast.BinOp) and isinstance(x.op, ast.Mult) and isinstance(x.left, ast.Name)]:
+        nm_ = mul_.left.id
+        if nm_ in ("blank", "lower_pixel", "upper_pixel") or nm_ in groles:
+            continue
+        vals_ = " ".join(norm(st_.value) for t_, st_ in stores_in(ast.Module(body=br.body, type_ignores=[])) if isinstance(t_, ast.Name) and t_.id == nm_ and getattr(st_, "value", None) is not None)
+        vals_ += " " + norm(trace(br, ast.Name(id=nm_, ctx=ast.Load()), use=ub))
+        if "LOWER_PIXEL" in vals_ and "UPPER_PIXEL" not in vals_:
+            groles[nm_] = "lower_pixel"
+        elif "UPPER_PIXEL" in vals_ and "LOWER_PIXEL" not in vals_:
+            groles[nm_] = "upper_pixel"
+        elif "' '" in vals_ or "' \\x00'" in vals_:
+            groles[nm_] = "blank"
+    if groles and len(set(groles.values())) == len(groles):
+        ck.extra.setdefault("roles", {})["BlockImage._render_image"] = _rl(br, groles)
     # ---- R1 ----------------------------------------------------------------------------
     inner = None
     for n in body_walk(br):
@@ -411,7 +429,15 @@ def run(ck, m):
         ck.ob("R4", enclosing_stmt(c), not data_dep, f"compositing over the background is skipped under a data-dependent condition {data_dep}: partially transparent pixels at or above the threshold would then show their raw colour instead of the blend",
               stmt=f"_get_render_data: compositing under state-only conditions ({'str alpha' if any('isinstance(alpha, str)' in g and not g.startswith('not') for g in gs) else 'threshold'})")
     thr = next((c for c in comp if any(norm(t) == "round_alpha" and b for t, b in guards(c))), None)
-    ck.ob("R4", grd, thr is not None and any(norm(s) == f"{norm(thr.func.value)}.putalpha(img.getchannel('A'))" for s in enclosing_stmt(thr)._p.body),
+    def _keeps_alpha(thr_):
+        want_ = norm(trace(grd, thr_.func.value, use=thr_))
+        for s_ in enclosing_stmt(thr_)._p.body:
+            for c_ in ast.walk(s_):
+                if isinstance(c_, ast.Call) and isinstance(c_.func, ast.Attribute) and c_.func.attr == "putalpha" and [norm(a_) for a_ in c_.args] == ["img.getchannel('A')"] \
+                        and (norm(c_.func.value) == norm(thr_.func.value) or norm(trace(grd, c_.func.value, use=c_)) == want_):          # (the canvas, under any alias)
+                    return True
+        return False
+    ck.ob("R4", grd, thr is not None and _keeps_alpha(thr),
           "thresholded transparency composites over the terminal background and keeps the alpha channel", stmt="_get_render_data: threshold branch composites and keeps alpha")
 
     rule_pixel_pipeline(ck, m, "R4")
